@@ -50,8 +50,19 @@ def _drop_entry(evs):
     return None
 
 
+def _mc(run):
+    """algorithm layer: DiskWriter.HandleChange as a sequence of system calls, every (old entry, incoming stat) pair, every crash point"""
+    from vlib import Inconclusive
+    run.tlc_mc("DiskWriterMC", "DiskWriterMC.cfg", label="alg/DiskWriter.HandleChange: arrived, grouped, children gone, merged directory kept, nothing outside touched (in every intermediate state), no temporary left")
+    for cfg, inv, what in (("DiskWriterMC_pinnedOrder.cfg", "Grouped", "pinned order of the type switch (device / fifo before the link name) must lose the group of a hard-linked fifo"),
+                           ("DiskWriterMC_statFollows.cfg", "Arrived", "os.Stat instead of os.Lstat on the destination path (seeded variant) must be rejected")):
+        r = run.tlc_mc("DiskWriterMC", cfg, label="sanity: " + what, expect_error=True)
+        if "Invariant %s is violated" % inv not in r["out"]:
+            raise Inconclusive("DiskWriterMC sanity configuration %s was not rejected: the model is vacuous" % cfg)
+
+
 def check(run):
-    return syncfam.run_family(run, "C01", "sync", {"C01"}, assumptions=ASSUME, selftests=[
+    return syncfam.run_family(run, "C01", "sync", {"C01"}, mc=_mc, assumptions=ASSUME, selftests=[
         ("flip a permission bit in the after-snapshot", _corrupt_after),
         ("change the content id of a stored file", _corrupt_content),
         ("drop the last entry of the after-snapshot", _drop_entry)])
